@@ -1290,6 +1290,9 @@ pub fn c17() -> CheckDef {
 fn c18_gen(seed: u64, run: u64, thorough: bool) -> Plan {
     world_b_spoof("C18", "b_spoof", seed, run, thorough)
 }
+fn c18_gen_long(seed: u64, run: u64, thorough: bool) -> Plan {
+    world_b_spoof_long("C18", "b_spoof_long", seed, run, thorough)
+}
 fn c18_oracles(_plan: &Plan) -> Vec<Box<dyn Oracle>> {
     with_states(vec![Box::new(AmplificationOracle::new("C18"))])
 }
@@ -1297,7 +1300,9 @@ fn c18_oracles(_plan: &Plan) -> Vec<Box<dyn Oracle>> {
 pub fn c18() -> CheckDef {
     CheckDef {
         property: "C18",
-        families: vec![Family { name: "b_spoof", world: "B", weight: 1, gen: c18_gen, oracles: c18_oracles, adversary: None, keep_workload: false, custom: None,
+        families: vec![Family { name: "b_spoof_long", world: "B", weight: 1, gen: c18_gen_long, oracles: c18_oracles, adversary: None, keep_workload: false, custom: None,
+            what: "abandoned handshakes (one valid SYN, never answered) watched for 300 s on servers whose silence timeout is 20 s..600 s, with and without a trickle (every 3-19 s) of stray data, sync or ack frames from the same address" },
+            Family { name: "b_spoof", world: "B", weight: 7, gen: c18_gen, oracles: c18_oracles, adversary: None, keep_workload: false, custom: None,
             what: "1-5 spoofable addresses that never return a nonce: valid 1472-byte SYNs (repeated, same or fresh nonce), undersized CRC-valid SYNs (length swept over 5..1471 across runs), wrong-version, configuration-refused and capacity-refused SYNs, stray frames of every other type, bursts of 80-400 small stray frames of one type right after a valid SYN, gaps up to 25 s (beyond the handshake timeout); servers with and without free capacity; the violation is the payload-byte balance, the balance with 28 header bytes per datagram is reported as a measurement" }],
         panic_is_violation: no_panics,
         hang_is_violation: false,
@@ -1619,6 +1624,25 @@ fn c19_gen_b(seed: u64, run: u64, thorough: bool) -> Plan {
     }
     plan
 }
+/// A victim connection fed by a hostile connected peer: whatever arrives, blocks are released
+/// with their own layout and the victim returns everything when it is dropped.
+fn c19_gen_hostile(seed: u64, run: u64, thorough: bool) -> Plan {
+    let mut plan = c06_gen_hostile(seed, run, thorough, false);
+    plan.property = "C19".into();
+    plan.scenario = "a_heap_hostile".into();
+    let mut r = Rng::keyed(&[seed, run, 0xa19]);
+    let focus = *r.pick(&[0.0, 1.0, 3.0, 4.0, 4.0]);
+    plan.params.insert("hostile_focus".into(), focus);
+    if focus == 4.0 {
+        plan.params.insert("hostile_max".into(), r.range(2000, 12_000) as f64);
+    }
+    plan
+}
+fn c19_adv(plan: &Plan) -> Option<Box<dyn Adversary>> {
+    let mut h = Hostile::new(plan, vec![(0, 1)]);
+    h.set_rate(1.0, if plan.param("hostile_focus", 0.0) == 4.0 { 6 } else { 20 });
+    Some(Box::new(h))
+}
 fn c19_oracles(_plan: &Plan) -> Vec<Box<dyn Oracle>> {
     vec![Box::new(HeapOracle::new("C19"))]
 }
@@ -1628,6 +1652,8 @@ pub fn c19() -> CheckDef {
         property: "C19",
         families: vec![Family { name: "b_heap", world: "B", weight: 1, gen: c19_gen_b, oracles: c19_oracles, adversary: None, keep_workload: false, custom: None,
             what: "real Client/Server lifecycles: multi-fragment traffic, disconnects from both sides, Server::drop(), clients destroyed mid-transfer and recreated, the server destroyed with live clients; same allocator oracle" },
+        Family { name: "a_heap_hostile", world: "A", weight: 1, gen: c19_gen_hostile, oracles: c19_oracles, adversary: Some(c19_adv), keep_workload: false, custom: None,
+            what: "a victim connection against a hostile connected peer (random well-formed frames; never-completing packets; packets announced by their last fragment; complete packets with inconsistent parent leads followed by a walk of the receive window over one slot array and new packets in the same slots), read at any cadence, then dropped; same allocator oracle" },
         Family { name: "a_heap", world: "A", weight: 2, gen: c19_gen, oracles: c19_oracles, adversary: None, keep_workload: false, custom: None,
             what: "multi-fragment sizes that are not multiples of the fragment size in every mode; delivered, skipped, window advanced over partial packets (loss of Unreliable/Persistent fragments), connection dropped mid-transfer; a layout-checking allocator watches every deallocation, and after dropping every endpoint the bytes they allocated must all be back" }],
         panic_is_violation: no_panics,
